@@ -51,7 +51,7 @@ Fixpoint bytes_eqb (a b : bytes) : bool :=
 
 (* ---- hex ------------------------------------------------------------------------- *)
 Definition hexval (c : ascii) : Z :=
-  let n := Z.of_nat (nat_of_ascii c) in
+  let n := Z.of_N (N_of_ascii c) in
   if (48 <=? n) && (n <=? 57) then n - 48
   else if (97 <=? n) && (n <=? 102) then n - 87
   else if (65 <=? n) && (n <=? 70) then n - 55
@@ -62,7 +62,7 @@ Fixpoint of_hex (s : string) : bytes :=
   | _ => []
   end.
 Definition hexdigit (n : Z) : ascii :=
-  ascii_of_nat (Z.to_nat (if n <? 10 then 48 + n else 87 + n)).
+  ascii_of_N (Z.to_N (if n <? 10 then 48 + n else 87 + n)).
 Fixpoint to_hex (l : bytes) : string :=
   match l with
   | [] => EmptyString
